@@ -160,6 +160,13 @@ type regDef struct {
 	aGlobs       []string
 	aOpt, bOpt   bool
 	aHasBadGlobs bool
+	// further registered clients (part "identifiers": clients whose ids are near misses of A's id)
+	extra []extraClient
+}
+
+type extraClient struct {
+	id    string
+	exact []string
 }
 
 func (rd regDef) exactA() []string {
@@ -225,6 +232,11 @@ func regOf(key string) regDef {
 			return r
 		}
 	}
+	for _, r := range idRegs() {
+		if r.key == key {
+			return r
+		}
+	}
 	panic("c18: no registration " + key)
 }
 
@@ -271,6 +283,12 @@ func newRigIss(def, reg, storage string, issuerFn func(bool) (op.IssuerFromReque
 	cfg.Clients = map[string]*refstore.Client{
 		clA: mk(clA, rd.exactA(), rd.aGlobs, rd.aOpt),
 		clB: mk(clB, rd.exactB(), rd.globsB(), rd.bOpt),
+	}
+	for _, x := range rd.extra {
+		if _, dup := cfg.Clients[x.id]; dup {
+			panic("c18: client registered twice: " + x.id)
+		}
+		cfg.Clients[x.id] = mk(x.id, x.exact, nil, false)
 	}
 	opc := rig.DefaultOPConfig()
 	opc.DefaultLogoutRedirectURI = valOf(defaults, def)
@@ -360,6 +378,9 @@ func TestCheck(t *testing.T) {
 	}
 	if want("uri-nearmiss") {
 		runNearMiss(t, c, full)
+	}
+	if want("identifiers") {
+		runIdentifiers(t, c, full)
 	}
 	if want("end_session") {
 		runMain(t, c, space)
